@@ -50,6 +50,8 @@ def main():
             continue
         print('=====', name, flush=True)
         props = [p for p in ALL if p not in ('C13', 'C14') or name.startswith(p)]
+        if '--target-only' in a:
+            props = [name[:3]]
         try:
             seedtool.detect(name, props, scratch, tier)
         except SystemExit as e:
